@@ -17,107 +17,187 @@ Section Hoist.
   Hypothesis HPfr : (fid P < fid fr)%nat.
   Hypothesis Hrestfr : forall g, In g rest -> (fid (fst g) < fid fr)%nat.
 
+  (* what the log refers to while the list l of the closing scope is hoisted into the parent Pc *)
+  Definition log_ok (l : list uent) (Pc : frame) (lg : list label) : Prop :=
+    (forall s y, In (LPend s y) lg ->
+       (s = fid fr /\ In (UPend y) l) \/
+       (exists fp, In fp ((Pc, prP) :: rest) /\ fid (fst fp) = s /\ In (UPend y) (fund (fst fp)))) /\
+    (forall s y, In (LArg s y) lg ->
+       (s = fid fr /\ In (UArg y) l) \/
+       (exists fp, In fp ((Pc, prP) :: rest) /\ fid (fst fp) = s /\ In (UArg y) (fund (fst fp)))).
+
+  Definition hoist_post (l : list uent) (Pc : frame) (lg : list label) : Prop :=
+    let r := a_hoist (fid fr) l Pc lg in
+    frame_ok (fst r) prP rest /\
+    fid (fst r) = fid P /\ fisfunc (fst r) = fisfunc P /\ fdecl (fst r) = fdecl P /\ fnarg (fst r) = fnarg Pc /\
+    (forall e, In e (fund Pc) -> In e (fund (fst r))) /\
+    (forall y, In (UPend y) (fund (fst r)) -> In (UPend y) (fund Pc) \/ In (UPend y) l \/ In (UArg y) l) /\
+    (forall y, In (UArg y) (fund (fst r)) -> In (UArg y) (fund Pc)) /\
+    log_ok [] (fst r) (snd r) /\
+    map (final e1) (snd r) = map (final e1) lg.
+
+  (* one unresolved entry x with label from, then the rest by k *)
+  Lemma hoist_one (k : frame -> list label -> frame * list label) (from : label) (x : Z) (l' : list uent) Pc lg :
+    frame_ok Pc prP rest -> fid Pc = fid P -> fisfunc Pc = fisfunc P -> fdecl Pc = fdecl P ->
+    final e1 from = lookup (env_of ((P, prP) :: rest)) x ->
+    (forall s y, from <> LDecl s y) ->
+    (* the log after the entries of x have been relabelled *)
+    (forall to Pn, (forall e, In e (fund Pc) -> In e (fund Pn)) -> fid Pn = fid Pc ->
+       (forall s y, to = LPend s y -> s = fid Pn /\ In (UPend y) (fund Pn)) -> (forall s y, to <> LArg s y) ->
+       log_ok l' Pn (relabel from to lg)) ->
+    (forall Pn lg', frame_ok Pn prP rest -> fid Pn = fid P -> fisfunc Pn = fisfunc P -> fdecl Pn = fdecl P ->
+       log_ok l' Pn lg' ->
+       let r := k Pn lg' in
+       frame_ok (fst r) prP rest /\ fid (fst r) = fid P /\ fisfunc (fst r) = fisfunc P /\ fdecl (fst r) = fdecl P /\
+       fnarg (fst r) = fnarg Pn /\
+       (forall e, In e (fund Pn) -> In e (fund (fst r))) /\
+       (forall y, In (UPend y) (fund (fst r)) -> In (UPend y) (fund Pn) \/ In (UPend y) l' \/ In (UArg y) l') /\
+       (forall y, In (UArg y) (fund (fst r)) -> In (UArg y) (fund Pn)) /\
+       log_ok [] (fst r) (snd r) /\ map (final e1) (snd r) = map (final e1) lg') ->
+    let r := a_hoist1 k from x Pc lg in
+    frame_ok (fst r) prP rest /\ fid (fst r) = fid P /\ fisfunc (fst r) = fisfunc P /\ fdecl (fst r) = fdecl P /\
+    fnarg (fst r) = fnarg Pc /\
+    (forall e, In e (fund Pc) -> In e (fund (fst r))) /\
+    (forall y, In (UPend y) (fund (fst r)) -> In (UPend y) (fund Pc) \/ y = x \/ In (UPend y) l' \/ In (UArg y) l') /\
+    (forall y, In (UArg y) (fund (fst r)) -> In (UArg y) (fund Pc)) /\
+    log_ok [] (fst r) (snd r) /\ map (final e1) (snd r) = map (final e1) lg.
+  Proof.
+    intros K Hfid Hisf Hfd Hfinal_from Hfromd Hstep Hk.
+    assert (Hfinal_P : final e1 (LPend (fid Pc) x) = lookup (env_of ((P, prP) :: rest)) x).
+    { unfold e1. cbn [final env_of map fst snd]. rewrite Hfid. rewrite drop_to_skip by lia. rewrite drop_to_head. reflexivity. }
+    unfold a_hoist1.
+    destruct (a_find_decl Pc x) as [[y k0]|] eqn:Ed.
+    - (* declared in the parent *)
+      destruct (a_find_decl_some _ _ _ _ Ed) as [-> Hin]. destruct (K_decl _ _ _ K x k0 Hin) as [Hp _].
+      destruct (Hk Pc (relabel from (LDecl (fid Pc) x) lg) K Hfid Hisf Hfd) as (H1 & H2 & H3 & H4 & H4n & H5 & H5b & H5c & H6 & H7).
+      { apply (Hstep (LDecl (fid Pc) x) Pc); [tauto|reflexivity|discriminate|discriminate]. }
+      split; [exact H1|]. split; [exact H2|]. split; [exact H3|]. split; [exact H4|]. split; [exact H4n|]. split; [exact H5|].
+      split; [intros y0 Hy0; destruct (H5b y0 Hy0) as [G|G]; [left; exact G|right; right; exact G]|]. split; [exact H5c|]. split; [exact H6|].
+      rewrite H7. apply final_relabel. rewrite Hfinal_from. cbn [final]. rewrite Hfid. symmetry. apply lookup_head. exact Hp.
+    - destruct (a_find_und Pc x) as [[y|y fs|y]|] eqn:Eu.
+      + (* used before in the parent *)
+        destruct (a_find_und_some _ _ _ Eu) as (Hin & Hn & _). cbn in Hn. subst y.
+        destruct (Hk Pc (relabel from (LPend (fid Pc) x) lg) K Hfid Hisf Hfd) as (H1 & H2 & H3 & H4 & H4n & H5 & H5b & H5c & H6 & H7).
+        { apply (Hstep (LPend (fid Pc) x) Pc); [tauto|reflexivity| |discriminate]. intros s y E. inversion E; subst. split; [reflexivity|exact Hin]. }
+        split; [exact H1|]. split; [exact H2|]. split; [exact H3|]. split; [exact H4|]. split; [exact H4n|]. split; [exact H5|].
+        split; [intros y0 Hy0; destruct (H5b y0 Hy0) as [G|G]; [left; exact G|right; right; exact G]|]. split; [exact H5c|]. split; [exact H6|].
+        rewrite H7. apply final_relabel. rewrite Hfinal_from, Hfinal_P. reflexivity.
+      + (* a declaration passed through the parent *)
+        destruct (a_find_und_some _ _ _ Eu) as (Hin & Hn & _). cbn in Hn. subst y.
+        destruct (K_pass _ _ _ K x fs Hin) as [_ Hp].
+        destruct (Hk Pc (relabel from (LDecl fs x) lg) K Hfid Hisf Hfd) as (H1 & H2 & H3 & H4 & H4n & H5 & H5b & H5c & H6 & H7).
+        { apply (Hstep (LDecl fs x) Pc); [tauto|reflexivity|discriminate|discriminate]. }
+        split; [exact H1|]. split; [exact H2|]. split; [exact H3|]. split; [exact H4|]. split; [exact H4n|]. split; [exact H5|].
+        split; [intros y0 Hy0; destruct (H5b y0 Hy0) as [G|G]; [left; exact G|right; right; exact G]|]. split; [exact H5c|]. split; [exact H6|].
+        rewrite H7. apply final_relabel. rewrite Hfinal_from. cbn [final]. symmetry.
+        rewrite <- (lookup_pass x fs ((Pc, prP) :: rest) Hp). apply f_equal2; [|reflexivity].
+        cbn [env_of map fst snd]. rewrite Hfid. reflexivity.
+      + destruct (a_find_und_some _ _ _ Eu) as (_ & _ & Hc). discriminate.
+      + (* moved to the parent *)
+        set (Pn := set_fund Pc (fund Pc ++ [UPend x])).
+        assert (Kn : frame_ok Pn prP rest).
+        { destruct K as [K1 K2 K3 K4 K5 K6 K7 K8 K9 K10 K11 K12]. destruct K7 as [K7a K7b]. constructor; try assumption.
+          - intros y Hy. cbn [fund Pn set_fund] in Hy. apply in_app_last in Hy. destruct Hy as [Hy|Hy]; [apply K3; exact Hy|].
+            inversion Hy; subst. apply a_find_decl_none. exact Ed.
+          - intros y fs Hy. cbn [fund Pn set_fund] in Hy. apply in_app_last in Hy. destruct Hy as [Hy|Hy]; [|discriminate]. exact (K4 y fs Hy).
+          - cbn [fund Pn set_fund]. rewrite pend_names_app. cbn. apply nodup_app_last; [exact K6|].
+            intros Hin. apply in_pend_names in Hin. apply (a_find_und_none _ _ Eu _ Hin); reflexivity.
+          - cbn [fund fnarg Pn set_fund]. split; [rewrite app_length; lia|].
+            rewrite firstn_app. replace (fnarg Pc - length (fund Pc))%nat with O by lia. cbn [firstn]. rewrite app_nil_r. exact K7b.
+          - intros y Hy. cbn [fund fnarg Pn set_fund] in *. apply in_app_last in Hy. destruct Hy as [Hy|Hy]; [|discriminate].
+            apply in_firstn_app; [exact K7a|apply K8; exact Hy].
+          - cbn [fund Pn set_fund]. rewrite arg_names_app. cbn. rewrite app_nil_r. exact K9. }
+        destruct (Hk Pn (relabel from (LPend (fid Pc) x) lg) Kn Hfid Hisf Hfd) as (H1 & H2 & H3 & H4 & H4n & H5 & H5b & H5c & H6 & H7).
+        { apply (Hstep (LPend (fid Pc) x) Pn).
+          - intros e He. cbn. apply in_app_last. left. exact He.
+          - reflexivity.
+          - intros s y E. inversion E; subst. split; [reflexivity|]. cbn. apply in_app_last. right. reflexivity.
+          - discriminate. }
+        split; [exact H1|]. split; [exact H2|]. split; [exact H3|]. split; [exact H4|]. split; [exact H4n|].
+        split; [intros e He; apply H5; cbn; apply in_app_last; left; exact He|].
+        split.
+        { intros y0 Hy0. destruct (H5b y0 Hy0) as [G|G]; [|right; right; exact G].
+          cbn [fund Pn set_fund] in G. apply in_app_last in G. destruct G as [G|G]; [left; exact G|right; left; inversion G; reflexivity]. }
+        split.
+        { intros y0 Hy0. specialize (H5c y0 Hy0). cbn [fund Pn set_fund] in H5c. apply in_app_last in H5c. destruct H5c as [G|G]; [exact G|discriminate]. }
+        split; [exact H6|].
+        rewrite H7. apply final_relabel. rewrite Hfinal_from, Hfinal_P. reflexivity.
+  Qed.
+
   Lemma hoist_ok :
     forall l Pc lg,
       frame_ok Pc prP rest -> fid Pc = fid P -> fisfunc Pc = fisfunc P -> fdecl Pc = fdecl P ->
-      (forall y, In (UPend y) l -> ~ In y (pnames pr)) -> NoDup (pend_names l) ->
-      (forall s y, In (LPend s y) lg ->
-         (s = fid fr /\ In (UPend y) l) \/
-         (exists fp, In fp ((Pc, prP) :: rest) /\ fid (fst fp) = s /\ In (UPend y) (fund (fst fp)))) ->
-      frame_ok (fst (a_hoist (fid fr) l Pc lg)) prP rest /\
-      fid (fst (a_hoist (fid fr) l Pc lg)) = fid P /\
-      fisfunc (fst (a_hoist (fid fr) l Pc lg)) = fisfunc P /\
-      fdecl (fst (a_hoist (fid fr) l Pc lg)) = fdecl P /\
-      (forall e, In e (fund Pc) -> In e (fund (fst (a_hoist (fid fr) l Pc lg)))) /\
-      (forall y, In (UPend y) (fund (fst (a_hoist (fid fr) l Pc lg))) -> In (UPend y) (fund Pc) \/ In (UPend y) l) /\
-      (forall s y, In (LPend s y) (snd (a_hoist (fid fr) l Pc lg)) ->
-         exists fp, In fp ((fst (a_hoist (fid fr) l Pc lg), prP) :: rest) /\ fid (fst fp) = s /\ In (UPend y) (fund (fst fp))) /\
-      map (final e1) (snd (a_hoist (fid fr) l Pc lg)) = map (final e1) lg.
+      (forall y, In (UPend y) l -> ~ In y (pnames pr)) -> NoDup (pend_names l) -> NoDup (arg_names l) ->
+      log_ok l Pc lg -> hoist_post l Pc lg.
   Proof.
-    induction l as [|[x|x fs] l' IH]; intros Pc lg K Hfid Hisf Hfd Hnot Hnd Hlog.
-    - cbn [a_hoist fst snd]. split; [exact K|]. split; [exact Hfid|]. split; [exact Hisf|]. split; [exact Hfd|].
-      split; [tauto|]. split; [intros y Hy; left; exact Hy|]. split; [|reflexivity].
-      intros s y H. destruct (Hlog s y H) as [[_ []]|Hex]. exact Hex.
+    induction l as [|[x|x fs|x] l' IH]; intros Pc lg K Hfid Hisf Hfd Hnot Hnd Hnda Hlog; unfold hoist_post; cbn zeta.
+    - cbn [a_hoist fst snd]. split; [exact K|]. split; [exact Hfid|]. split; [exact Hisf|]. split; [exact Hfd|]. split; [reflexivity|].
+      split; [tauto|]. split; [intros y Hy; left; exact Hy|]. split; [tauto|]. split; [exact Hlog|reflexivity].
     - (* an unresolved use of the closing scope *)
       assert (Hx : ~ In x (pnames pr)) by (apply Hnot; left; reflexivity).
       assert (Hnot' : forall y, In (UPend y) l' -> ~ In y (pnames pr)) by (intros y Hy; apply Hnot; right; exact Hy).
-      cbn [pend_names] in Hnd. inversion Hnd as [|? ? Hxl Hnd']; subst.
-      assert (Hfinal_from : final e1 (LPend (fid fr) x) = lookup (env_of ((P, prP) :: rest)) x).
+      cbn [pend_names] in Hnd. inversion Hnd as [|? ? Hxl Hnd']; subst. cbn [arg_names] in Hnda.
+      cbn [a_hoist].
+      destruct (hoist_one (a_hoist (fid fr) l') (LPend (fid fr) x) x l' Pc lg K Hfid Hisf Hfd)
+        as (H1 & H2 & H3 & H4 & H4n & H5 & H5b & H5c & H6 & H7).
       { unfold e1. cbn [final env_of map fst snd]. rewrite drop_to_head. apply lookup_skip. exact Hx. }
-      assert (Hfinal_P : final e1 (LPend (fid Pc) x) = lookup (env_of ((P, prP) :: rest)) x).
-      { unfold e1. cbn [final env_of map fst snd]. rewrite Hfid. rewrite drop_to_skip by lia. rewrite drop_to_head. reflexivity. }
-      (* what remains of the log invariant after the entries of x have been relabelled into the parent *)
-      assert (Hstep : forall to Pn,
-        (forall e, In e (fund Pc) -> In e (fund Pn)) -> fid Pn = fid Pc ->
-        (forall s y, to = LPend s y -> s = fid Pn /\ In (UPend y) (fund Pn)) ->
-        forall s y, In (LPend s y) (relabel (LPend (fid fr) x) to lg) ->
-          (s = fid fr /\ In (UPend y) l') \/
-          (exists fp, In fp ((Pn, prP) :: rest) /\ fid (fst fp) = s /\ In (UPend y) (fund (fst fp)))).
-      { intros to Pn Hsub HfPn Hto s y Hin. apply in_relabel in Hin. destruct Hin as [[E _]|[Hin Hne]].
-        - destruct (Hto s y (eq_sym E)) as [H1 H2]. right. exists (Pn, prP). split; [left; reflexivity|]. split; [symmetry; exact H1|exact H2].
-        - destruct (Hlog s y Hin) as [[Hs [Hy|Hy]]|(fp & Hfp & Hs & Hu)].
+      { discriminate. }
+      { intros to Pn Hsub HfPn Hto Htoa. destruct Hlog as [Hl1 Hl2]. split.
+        - intros s y Hin. apply in_relabel in Hin. destruct Hin as [[E _]|[Hin Hne]].
+          + destruct (Hto s y (eq_sym E)) as [G1 G2]. right. exists (Pn, prP). split; [left; reflexivity|]. split; [symmetry; exact G1|exact G2].
+          + destruct (Hl1 s y Hin) as [[Hs [Hy|Hy]]|(fp & Hfp & Hs & Hu)].
+            * exfalso. apply Hne. inversion Hy; subst. reflexivity.
+            * left. split; assumption.
+            * right. destruct Hfp as [<-|Hfp].
+              -- exists (Pn, prP). split; [left; reflexivity|]. cbn [fst] in *. split; [congruence|apply Hsub; exact Hu].
+              -- exists fp. split; [right; exact Hfp|]. split; assumption.
+        - intros s y Hin. apply in_relabel in Hin. destruct Hin as [[E _]|[Hin Hne]]; [exfalso; apply (Htoa s y); symmetry; exact E|].
+          destruct (Hl2 s y Hin) as [[Hs [Hy|Hy]]|(fp & Hfp & Hs & Hu)]; [discriminate|left; split; assumption|].
+          right. destruct Hfp as [<-|Hfp].
+          + exists (Pn, prP). split; [left; reflexivity|]. cbn [fst] in *. split; [congruence|apply Hsub; exact Hu].
+          + exists fp. split; [right; exact Hfp|]. split; assumption. }
+      { intros Pn lg' Kn HfPn HiPn HdPn Hlogn. apply (IH Pn lg' Kn HfPn HiPn HdPn Hnot' Hnd' Hnda Hlogn). }
+      split; [exact H1|]. split; [exact H2|]. split; [exact H3|]. split; [exact H4|]. split; [exact H4n|]. split; [exact H5|].
+      split.
+      { intros y Hy. destruct (H5b y Hy) as [G|[G|[G|G]]]; [left; exact G|right; left; left; subst; reflexivity|right; left; right; exact G|right; right; right; exact G]. }
+      split; [exact H5c|]. split; [exact H6|exact H7].
+    - (* a declaration passed through the closing scope *)
+      cbn [a_hoist].
+      destruct (IH Pc lg K Hfid Hisf Hfd) as (H1 & H2 & H3 & H4 & H4n & H5 & H5b & H5c & H6 & H7); try assumption.
+      + intros y Hy. apply Hnot. right. exact Hy.
+      + destruct Hlog as [Hl1 Hl2]. split.
+        * intros s y H. destruct (Hl1 s y H) as [[Hs [Hy|Hy]]|Hex]; [discriminate|left; split; assumption|right; exact Hex].
+        * intros s y H. destruct (Hl2 s y H) as [[Hs [Hy|Hy]]|Hex]; [discriminate|left; split; assumption|right; exact Hex].
+      + split; [exact H1|]. split; [exact H2|]. split; [exact H3|]. split; [exact H4|]. split; [exact H4n|]. split; [exact H5|].
+        split; [intros y0 Hy0; destruct (H5b y0 Hy0) as [G|[G|G]]; [left; exact G|right; left; right; exact G|right; right; right; exact G]|].
+        split; [exact H5c|]. split; assumption.
+    - (* a use made in the parameter list of the closing scope: resolved outside of it *)
+      assert (Hnot' : forall y, In (UPend y) l' -> ~ In y (pnames pr)) by (intros y Hy; apply Hnot; right; exact Hy).
+      cbn [arg_names] in Hnda. inversion Hnda as [|? ? Hxl Hnda']; subst. cbn [pend_names] in Hnd.
+      cbn [a_hoist].
+      destruct (hoist_one (a_hoist (fid fr) l') (LArg (fid fr) x) x l' Pc lg K Hfid Hisf Hfd)
+        as (H1 & H2 & H3 & H4 & H4n & H5 & H5b & H5c & H6 & H7).
+      { unfold e1. cbn [final env_of map fst snd]. rewrite drop_to_head. reflexivity. }
+      { discriminate. }
+      { intros to Pn Hsub HfPn Hto Htoa. destruct Hlog as [Hl1 Hl2]. split.
+        - intros s y Hin. apply in_relabel in Hin. destruct Hin as [[E _]|[Hin Hne]].
+          + destruct (Hto s y (eq_sym E)) as [G1 G2]. right. exists (Pn, prP). split; [left; reflexivity|]. split; [symmetry; exact G1|exact G2].
+          + destruct (Hl1 s y Hin) as [[Hs [Hy|Hy]]|(fp & Hfp & Hs & Hu)]; [discriminate|left; split; assumption|].
+            right. destruct Hfp as [<-|Hfp].
+            * exists (Pn, prP). split; [left; reflexivity|]. cbn [fst] in *. split; [congruence|apply Hsub; exact Hu].
+            * exists fp. split; [right; exact Hfp|]. split; assumption.
+        - intros s y Hin. apply in_relabel in Hin. destruct Hin as [[E _]|[Hin Hne]]; [exfalso; apply (Htoa s y); symmetry; exact E|].
+          destruct (Hl2 s y Hin) as [[Hs [Hy|Hy]]|(fp & Hfp & Hs & Hu)].
           + exfalso. apply Hne. inversion Hy; subst. reflexivity.
           + left. split; assumption.
           + right. destruct Hfp as [<-|Hfp].
             * exists (Pn, prP). split; [left; reflexivity|]. cbn [fst] in *. split; [congruence|apply Hsub; exact Hu].
             * exists fp. split; [right; exact Hfp|]. split; assumption. }
-      cbn [a_hoist].
-      destruct (a_find_decl Pc x) as [[y k]|] eqn:Ed.
-      + (* declared in the parent *)
-        destruct (a_find_decl_some _ _ _ _ Ed) as [-> Hin]. destruct (K_decl _ _ _ K x k Hin) as [Hp _].
-        destruct (IH Pc (relabel (LPend (fid fr) x) (LDecl (fid Pc) x) lg) K Hfid Hisf Hfd Hnot' Hnd') as (H1 & H2 & H3 & H4 & H5 & H5b & H6 & H7).
-        { apply (Hstep (LDecl (fid Pc) x) Pc); [tauto|reflexivity|discriminate]. }
-        split; [exact H1|]. split; [exact H2|]. split; [exact H3|]. split; [exact H4|]. split; [exact H5|].
-        split; [intros y0 Hy0; destruct (H5b y0 Hy0) as [G|G]; [left; exact G|right; right; exact G]|]. split; [exact H6|].
-        rewrite H7. apply final_relabel. rewrite Hfinal_from. cbn [final]. rewrite Hfid. symmetry. apply lookup_head. exact Hp.
-      + destruct (a_find_und Pc x) as [[y|y fs]|] eqn:Eu.
-        * (* used before in the parent *)
-          destruct (a_find_und_some _ _ _ Eu) as [Hin Hn]. cbn in Hn. subst y.
-          destruct (IH Pc (relabel (LPend (fid fr) x) (LPend (fid Pc) x) lg) K Hfid Hisf Hfd Hnot' Hnd') as (H1 & H2 & H3 & H4 & H5 & H5b & H6 & H7).
-          { apply (Hstep (LPend (fid Pc) x) Pc); [tauto|reflexivity|]. intros s y E. inversion E; subst. split; [reflexivity|exact Hin]. }
-          split; [exact H1|]. split; [exact H2|]. split; [exact H3|]. split; [exact H4|]. split; [exact H5|].
-          split; [intros y0 Hy0; destruct (H5b y0 Hy0) as [G|G]; [left; exact G|right; right; exact G]|]. split; [exact H6|].
-          rewrite H7. apply final_relabel. rewrite Hfinal_from, Hfinal_P. reflexivity.
-        * (* a declaration passed through the parent *)
-          destruct (a_find_und_some _ _ _ Eu) as [Hin Hn]. cbn in Hn. subst y.
-          destruct (K_pass _ _ _ K x fs Hin) as [_ Hp].
-          destruct (IH Pc (relabel (LPend (fid fr) x) (LDecl fs x) lg) K Hfid Hisf Hfd Hnot' Hnd') as (H1 & H2 & H3 & H4 & H5 & H5b & H6 & H7).
-          { apply (Hstep (LDecl fs x) Pc); [tauto|reflexivity|discriminate]. }
-          split; [exact H1|]. split; [exact H2|]. split; [exact H3|]. split; [exact H4|]. split; [exact H5|].
-          split; [intros y0 Hy0; destruct (H5b y0 Hy0) as [G|G]; [left; exact G|right; right; exact G]|]. split; [exact H6|].
-          rewrite H7. apply final_relabel. rewrite Hfinal_from. cbn [final]. symmetry.
-          rewrite <- (lookup_pass x fs ((Pc, prP) :: rest) Hp). apply f_equal2; [|reflexivity].
-          cbn [env_of map fst snd]. rewrite Hfid. reflexivity.
-        * (* moved to the parent *)
-          set (Pn := set_fund Pc (fund Pc ++ [UPend x])).
-          assert (Kn : frame_ok Pn prP rest).
-          { destruct K as [K1 K2 K3 K4 K5 K6 K7 K8 K9]. constructor; try assumption.
-            - intros y Hy. cbn [fund Pn set_fund] in Hy. apply in_app_last in Hy. destruct Hy as [Hy|Hy]; [apply K3; exact Hy|].
-              inversion Hy; subst. apply a_find_decl_none. exact Ed.
-            - intros y fs Hy. cbn [fund Pn set_fund] in Hy. apply in_app_last in Hy. destruct Hy as [Hy|Hy]; [|discriminate]. exact (K4 y fs Hy).
-            - cbn [fund Pn set_fund]. rewrite pend_names_app. cbn. apply nodup_app_last; [exact K6|].
-              intros Hin. apply in_pend_names in Hin. apply (a_find_und_none _ _ Eu _ Hin). reflexivity.
-            - cbn [fund fnarg Pn set_fund]. destruct K7 as [K7a K7b]. split; [rewrite app_length; lia|].
-              rewrite firstn_app. replace (fnarg Pc - length (fund Pc))%nat with O by lia. cbn [firstn]. rewrite app_nil_r. exact K7b. }
-          destruct (IH Pn (relabel (LPend (fid fr) x) (LPend (fid Pc) x) lg) Kn Hfid Hisf Hfd Hnot' Hnd') as (H1 & H2 & H3 & H4 & H5 & H5b & H6 & H7).
-          { apply (Hstep (LPend (fid Pc) x) Pn).
-            - intros e He. cbn. apply in_app_last. left. exact He.
-            - reflexivity.
-            - intros s y E. inversion E; subst. split; [reflexivity|]. cbn. apply in_app_last. right. reflexivity. }
-          split; [exact H1|]. split; [exact H2|]. split; [exact H3|]. split; [exact H4|].
-          split; [intros e He; apply H5; cbn; apply in_app_last; left; exact He|].
-          split.
-          { intros y0 Hy0. destruct (H5b y0 Hy0) as [G|G]; [|right; right; exact G].
-            cbn [fund Pn set_fund] in G. apply in_app_last in G. destruct G as [G|G]; [left; exact G|right; left; symmetry; exact G]. }
-          split; [exact H6|].
-          rewrite H7. apply final_relabel. rewrite Hfinal_from, Hfinal_P. reflexivity.
-    - (* a declaration passed through the closing scope *)
-      cbn [a_hoist].
-      destruct (IH Pc lg K Hfid Hisf Hfd) as (H1 & H2 & H3 & H4 & H5 & H5b & H6 & H7); try assumption.
-      + intros y Hy. apply Hnot. right. exact Hy.
-      + intros s y H. destruct (Hlog s y H) as [[Hs [Hy|Hy]]|Hex]; [discriminate|left; split; assumption|right; exact Hex].
-      + split; [exact H1|]. split; [exact H2|]. split; [exact H3|]. split; [exact H4|]. split; [exact H5|].
-        split; [intros y0 Hy0; destruct (H5b y0 Hy0) as [G|G]; [left; exact G|right; right; exact G]|]. split; assumption.
+      { intros Pn lg' Kn HfPn HiPn HdPn Hlogn. apply (IH Pn lg' Kn HfPn HiPn HdPn Hnot' Hnd Hnda' Hlogn). }
+      split; [exact H1|]. split; [exact H2|]. split; [exact H3|]. split; [exact H4|]. split; [exact H4n|]. split; [exact H5|].
+      split.
+      { intros y Hy. destruct (H5b y Hy) as [G|[G|[G|G]]]; [left; exact G|right; right; left; subst; reflexivity|right; left; right; exact G|right; right; right; exact G]. }
+      split; [exact H5c|]. split; [exact H6|exact H7].
   Qed.
 End Hoist.
 
@@ -127,24 +207,35 @@ Lemma L_exit a fr pr P prP rest :
   (forall y, In y (pnames pr) -> In y (dnames fr)) ->
   exists a' P',
     a_exit a = ARun a' /\ AInv a' ((P', prP) :: rest) /\
-    fid P' = fid P /\ fisfunc P' = fisfunc P /\ fdecl P' = fdecl P /\
+    fid P' = fid P /\ fisfunc P' = fisfunc P /\ fdecl P' = fdecl P /\ fnarg P' = fnarg P /\
     (forall e, In e (fund P) -> In e (fund P')) /\
-    (forall y, In (UPend y) (fund P') -> In (UPend y) (fund P) \/ In (UPend y) (fund fr)) /\
+    (forall y, In (UPend y) (fund P') -> In (UPend y) (fund P) \/ In (UPend y) (fund fr) \/ In (UArg y) (fund fr)) /\
+    (forall y, In (UArg y) (fund P') -> In (UArg y) (fund P)) /\
     anext a' = anext a /\
     map (final (env_of ((P, prP) :: rest))) (alog a') = map (final (env_of ((fr, pr) :: (P, prP) :: rest))) (alog a).
 Proof.
-  intros [As Af An Al] Hfull. cbn [map fst] in As. cbn [frames_ok] in Af. destruct Af as (Kfr & KP & Krest).
+  intros [As Af An Al Aa] Hfull. cbn [map fst] in As. cbn [frames_ok] in Af. destruct Af as (Kfr & KP & Krest).
   assert (HPfr : (fid P < fid fr)%nat) by (apply (K_fid _ _ _ Kfr (P, prP)); left; reflexivity).
   assert (Hrestfr : forall g, In g rest -> (fid (fst g) < fid fr)%nat) by (intros g Hg; apply (K_fid _ _ _ Kfr g); right; exact Hg).
   destruct (hoist_ok fr pr P prP rest HPfr (fund fr) P (alog a) KP eq_refl eq_refl eq_refl)
-    as (H1 & H2 & H3 & H4 & H5 & H5b & H6 & H7).
+    as (H1 & H2 & H3 & H4 & H4n & H5 & H5b & H5c & H6 & H7).
   { intros y Hy Hin. apply (K_pend _ _ _ Kfr y Hy). apply Hfull. exact Hin. }
   { apply (K_pnodup _ _ _ Kfr). }
-  { intros s y H. destruct (Al s y H) as (fp & Hfp & Hs & Hu). destruct Hfp as [<-|Hfp].
-    - left. split; [symmetry; exact Hs|exact Hu].
-    - right. exists fp. split; [exact Hfp|]. split; assumption. }
+  { apply (K_anodup _ _ _ Kfr). }
+  { split.
+    - intros s y H. destruct (Al s y H) as (fp & Hfp & Hs & Hu). destruct Hfp as [<-|Hfp].
+      + left. split; [symmetry; exact Hs|exact Hu].
+      + right. exists fp. split; [exact Hfp|]. split; assumption.
+    - intros s y H. destruct (Aa s y H) as (fp & Hfp & Hs & Hu). destruct Hfp as [<-|Hfp].
+      + left. split; [symmetry; exact Hs|exact Hu].
+      + right. exists fp. split; [exact Hfp|]. split; assumption. }
   unfold a_exit. rewrite As.
   destruct (a_hoist (fid fr) (fund fr) P (alog a)) as [P' lg'] eqn:Eh. cbn [fst snd] in *.
+  destruct H6 as [H6 H6a].
+  assert (L1 : forall s y, In (LPend s y) lg' -> exists fp, In fp ((P', prP) :: rest) /\ fid (fst fp) = s /\ In (UPend y) (fund (fst fp))).
+  { intros s y H. destruct (H6 s y H) as [[_ []]|Hex]. exact Hex. }
+  assert (L2 : forall s y, In (LArg s y) lg' -> exists fp, In fp ((P', prP) :: rest) /\ fid (fst fp) = s /\ In (UArg y) (fund (fst fp))).
+  { intros s y H. destruct (H6a s y H) as [[_ []]|Hex]. exact Hex. }
   exists (mkA (P' :: map fst rest) (anext a) lg'), P'. split; [reflexivity|]. split.
   { constructor.
     - reflexivity.
@@ -152,13 +243,19 @@ Proof.
     - intros fp [<-|Hfp]; cbn [fst anext].
       + rewrite H2. apply (An (P, prP)). right. left. reflexivity.
       + apply An. right. right. exact Hfp.
-    - exact H6. }
-  split; [exact H2|]. split; [exact H3|]. split; [exact H4|]. split; [exact H5|]. split; [exact H5b|]. split; [reflexivity|].
+    - exact L1.
+    - exact L2. }
+  split; [exact H2|]. split; [exact H3|]. split; [exact H4|]. split; [exact H4n|]. split; [exact H5|].
+  split; [intros y Hy; destruct (H5b y Hy) as [G|[G|G]]; tauto|]. split; [exact H5c|]. split; [reflexivity|].
   cbn [alog]. rewrite <- H7.
   (* no entry of the closed scope is left: the meaning of the remaining labels does not depend on it *)
-  apply map_ext_in. intros l Hl. destruct l as [s y|s y]; [reflexivity|].
-  destruct (H6 s y Hl) as (fp & Hfp & Hs & _).
-  assert (Hne : fid fr <> s).
-  { destruct Hfp as [<-|Hfp]; cbn [fst] in Hs; [rewrite H2 in Hs; lia|]. specialize (Hrestfr fp Hfp). lia. }
-  cbn [final env_of map fst snd]. rewrite (drop_to_skip s (fid fr)) by exact Hne. reflexivity.
+  apply map_ext_in. intros l Hl. destruct l as [s y|s y|s y]; [reflexivity| |].
+  - destruct (L1 s y Hl) as (fp & Hfp & Hs & _).
+    assert (Hne : fid fr <> s).
+    { destruct Hfp as [<-|Hfp]; cbn [fst] in Hs; [rewrite H2 in Hs; lia|]. specialize (Hrestfr fp Hfp). lia. }
+    cbn [final env_of map fst snd]. rewrite (drop_to_skip s (fid fr)) by exact Hne. reflexivity.
+  - destruct (L2 s y Hl) as (fp & Hfp & Hs & _).
+    assert (Hne : fid fr <> s).
+    { destruct Hfp as [<-|Hfp]; cbn [fst] in Hs; [rewrite H2 in Hs; lia|]. specialize (Hrestfr fp Hfp). lia. }
+    cbn [final env_of map fst snd]. rewrite (drop_to_skip s (fid fr)) by exact Hne. reflexivity.
 Qed.
